@@ -6,6 +6,7 @@ import MJ.Proofs.CmpLen
 import MJ.Proofs.CmpF64Order
 import MJ.Proofs.CollGroup
 import MJ.Proofs.CollRuns
+import MJ.Proofs.CollX
 /-!
 # C07 — Value order / equality / hash laws and the algebra of the collection filters
 
@@ -17,7 +18,7 @@ Property theorems only (helper lemmas live in `MJ/Proofs/Cmp*.lean`, `MJ/Proofs/
 * `Coll.*` are the models of the collection filters over an arbitrary item type and comparison.
 -/
 namespace MJ.C07
-open MJ MJ.Val MJ.Cmp MJ.F64 MJ.CmpKey MJ.CmpNum MJ.CmpEq MJ.Coll MJ.CollV Std
+open MJ MJ.Val MJ.Cmp MJ.F64 MJ.CmpKey MJ.CmpNum MJ.CmpEq MJ.Coll MJ.CollV MJ.CollX Std
 
 /-! ## the order -/
 
@@ -567,5 +568,304 @@ theorem source_tables_tie :
     MJ.Gen.cmpKindAlias = [("Iterable", "Seq")] ∧ MJ.Gen.hashSharedZeroKinds = ["None", "Undefined"] ∧
     hkey .none = hkey .undef ∧ 0 < MJ.Gen.valueMapStrScanMax := by
   refine ⟨rfl, rfl, rfl, by decide⟩
+
+/-! ## attribute paths and composite keys -/
+
+/-- `sort(attribute="a.b.0")` (a dotted path with names and indexes) is the sort by the key function
+    `get_path_or_default(path, undefined)`: the same laws as for a single attribute -/
+theorem sort_path_spec (m : Mode) (cs rev : Bool) (path : List PathPart) (xs : List V)
+    (h : ∀ x ∈ xs, MJ.C07.InRange (pathOr m path .undef x)) :
+    (sortPathV m cs rev path xs).Perm xs ∧
+    (sortPathV m cs rev path xs).Pairwise (fun a b => cmpHelper cs rev (pathOr m path .undef a) (pathOr m path .undef b) ≠ .gt) ∧
+    (∀ a b, [a, b].Sublist xs → cmpHelper cs rev (pathOr m path .undef a) (pathOr m path .undef b) = .eq →
+      [a, b].Sublist (sortPathV m cs rev path xs)) :=
+  sortKV_spec cs rev (pathOr m path .undef) xs h
+
+/-- a path of one name is the single attribute of `sort_values_spec`; an item on which the path fails
+    (no such attribute, an attribute of a non-map, an attribute of undefined) sorts as undefined -/
+theorem path_single_name_is_attr (m : Mode) (s : List Nat) (d x : V) :
+    pathOr m [.name s] d x = attrOr m s d x := pathOr_single_name m s d x
+
+example : pathOr .btree [.name [97], .name [98]] .undef (.map [(.str [97], .map [(.str [98], .num (.i64 7))])]) = .num (.i64 7) ∧
+    pathOr .btree [.name [97], .name [98]] .undef (.map [(.str [97], .num (.i64 7))]) = .undef ∧
+    pathOr .btree [.name [97], .name [98]] .undef (.map []) = .undef ∧
+    pathOr .btree [.idx 1] .undef (.seq [.none, .str [120]]) = .str [120] := by
+  refine ⟨?_, ?_, ?_, ?_⟩ <;> simp [pathOr, getPath, getAttr, getIdx, getByStr, scanStr, MJ.Gen.valueMapStrScanMax]
+
+/-- several attributes (`attribute="p, q, …"`): the composite key orders lexicographically — the first
+    path decides, `Equal` first values hand over to the rest — and case folding never reaches inside -/
+theorem multi_key_is_lexicographic (m : Mode) (cs : Bool) (p : List PathPart) (ps : List (List PathPart)) (a b : V) :
+    cmpHelper cs false (keyMultiP m (p :: ps) a) (keyMultiP m (p :: ps) b) =
+      (cmpV (pathOr m p .undef a) (pathOr m p .undef b)).then
+        (cmpHelper cs false (keyMultiP m ps a) (keyMultiP m ps b)) ∧
+    cmpHelper cs false (keyMultiP m [] a) (keyMultiP m [] b) = .eq := by
+  simp only [cmpHelper, keyMultiP, List.map_cons, List.map_nil, cmpCore_seq, Bool.false_eq_true, if_false]
+  exact ⟨cmpV_seq_cons _ _ _ _, cmpV_seq_nil⟩
+
+theorem sort_multi_path_spec (m : Mode) (cs rev : Bool) (paths : List (List PathPart)) (xs : List V)
+    (h : ∀ x ∈ xs, MJ.C07.InRange (keyMultiP m paths x)) :
+    (sortMultiPathV m cs rev paths xs).Perm xs ∧
+    (sortMultiPathV m cs rev paths xs).Pairwise (fun a b => cmpHelper cs rev (keyMultiP m paths a) (keyMultiP m paths b) ≠ .gt) ∧
+    (∀ a b, [a, b].Sublist xs → cmpHelper cs rev (keyMultiP m paths a) (keyMultiP m paths b) = .eq →
+      [a, b].Sublist (sortMultiPathV m cs rev paths xs)) :=
+  sortKV_spec cs rev (keyMultiP m paths) xs h
+
+example : MJ.C07.InRange (keyMultiP .btree [[.name [103]], [.name [112], .name [107]]]
+    (.map [(.str [103], .num (.u64 1)), (.str [112], .map [(.str [107], .str [65])])])) := by
+  simp [keyMultiP, pathOr, getPath, getAttr, getByStr, scanStr, MJ.Gen.valueMapStrScanMax, AllNum, AllNumL, N.WF, u64Max]
+
+/-- `unique(attribute=path)` and `groupby(path, default)` obey the laws of `unique_values_spec` /
+    `groupby_values_spec` with the path value as key -/
+theorem unique_path_spec (m : Mode) (lower : List Nat → List Nat) (cs : Bool) (path : List PathPart) (xs : List V)
+    (h : ∀ x ∈ xs, MJ.C07.InRange (pathOr m path .undef x)) :
+    let key := memoKey lower cs (pathOr m path .undef)
+    (uniquePathV m lower cs path xs).Sublist xs ∧
+    (uniquePathV m lower cs path xs).Pairwise (fun a b => cmpV (key a) (key b) ≠ .eq) ∧
+    (∀ x ∈ xs, ∃ y ∈ uniquePathV m lower cs path xs, cmpV (key y) (key x) = .eq) ∧
+    (∀ pre x post, xs = pre ++ x :: post → (∀ p ∈ pre, cmpV (key p) (key x) ≠ .eq) →
+      x ∈ uniquePathV m lower cs path xs) :=
+  uniqueKV_spec lower cs (pathOr m path .undef) xs h
+
+theorem groupby_path_spec (m : Mode) (cs : Bool) (path : List PathPart) (dflt : V) (xs : List V)
+    (h : ∀ x ∈ xs, MJ.C07.InRange (pathOr m path dflt x)) :
+    let G := groupbyPathV m cs path dflt xs
+    let S := xs.mergeSort (fun a b => cmpHelper cs false (pathOr m path dflt a) (pathOr m path dflt b) != .gt)
+    G.flatMap (·.2) = S ∧ S.Perm xs ∧
+    (∀ p ∈ G, p.2 ≠ [] ∧ ∀ y ∈ p.2, cmpHelper cs false p.1 (pathOr m path dflt y) = .eq) ∧
+    G.Pairwise (fun p q => cmpHelper cs false p.1 q.1 = .lt) :=
+  groupbyKV_spec cs (pathOr m path dflt) xs h
+
+example : ∀ x ∈ [V.map [(.str [112], .map [(.str [107], .num (.u64 1))])], .map [(.str [112], .num (.i64 7))], .none],
+    MJ.C07.InRange (pathOr .btree [.name [112], .name [107]] (.num (.i64 0)) x) := by
+  intro x hx
+  simp only [List.mem_cons, List.not_mem_nil, or_false] at hx
+  rcases hx with rfl | rfl | rfl <;>
+    simp [pathOr, getPath, getAttr, getByStr, scanStr, MJ.Gen.valueMapStrScanMax, AllNum, N.WF, i64Min, i64Max, u64Max]
+
+/-! ## sum / zip / chain / items / list -/
+
+/-- `sum` is the fold of the C08 integer addition from `0` over the integer items (undefined items are
+    skipped; anything else that is not a number is an `Err`) — so by C08's `sum_exact` its result is the
+    exact sum, and it does not depend on the order or the representation widths of the items -/
+theorem sum_is_fold_of_add (xs : List V) (h : SumOK xs) :
+    sumV xs = some (match MJ.Num.sumFilter (intItems xs) with
+      | .ok r => .ok r
+      | .err => .error) :=
+  sumFrom_eq (.i64 0) xs h
+
+example : SumOK [.num (.i64 1), .undef, .num (.u128 18446744073709551616)] ∧
+    sumV [.num (.i64 1), .undef, .num (.u128 18446744073709551616)] = some (.ok (.i128 18446744073709551617)) ∧
+    sumV [.num (.i64 1), .str [97]] = some .error := by
+  refine ⟨by simp [SumOK, toRepr], by rfl, by rfl⟩
+
+/-- `zip`: as many tuples as the shortest operand has items, tuple `i` holds item `i` of every operand
+    in operand order (so every tuple has one entry per operand) -/
+theorem zip_spec (xss : List (List V)) :
+    (zipV xss).length = zipRounds xss ∧ (∀ xs ∈ xss, (zipV xss).length ≤ xs.length) ∧
+    (∀ i (h : i < (zipV xss).length), (zipV xss)[i] = xss.map (fun xs => xs.getD i .undef)) ∧
+    (∀ t ∈ zipV xss, t.length = xss.length) := by
+  refine ⟨zipV_length xss, ?_, zipV_getElem xss, ?_⟩
+  · intro xs hx; rw [zipV_length]; exact zipRounds_le xss xs hx
+  · intro t ht
+    simp only [zipV, List.mem_map, List.mem_range] at ht
+    obtain ⟨i, _, rfl⟩ := ht
+    simp
+
+theorem zip_two (xs ys : List V) : (zipV [xs, ys]).length = min xs.length ys.length := by
+  rw [zipV_length, zipRounds_two]
+
+example : zipV [[.num (.i64 1), .num (.i64 2), .num (.i64 3)], [.str [97], .str [98]]] =
+    [[.num (.i64 1), .str [97]], [.num (.i64 2), .str [98]]] := by rfl
+
+/-- `chain` of sequences / iterables: the items of the operands one after the other; associative; the
+    reported length is the sum of the known lengths; `[i]` is item `i` of the concatenation -/
+theorem chain_spec (a b c : List V) (xss : List (List V)) (i : Nat) :
+    chainSeq [chainSeq [a, b], c] = chainSeq [a, chainSeq [b, c]] ∧
+    chainSeq [chainSeq [a, b], c] = chainSeq [a, b, c] ∧
+    chainSeq [a, b] = a ++ b ∧
+    chainLen (xss.map (fun xs => some xs.length)) = some (chainSeq xss).length ∧
+    chainIdx xss i = (chainSeq xss)[i]? := by
+  refine ⟨by simp [chainSeq], by simp [chainSeq], by simp [chainSeq], chainLen_known xss, chainIdx_eq xss i⟩
+
+example : chainLen [some 2, Option.none, some 1] = Option.none ∧ chainLen [some 2, some 1] = some 3 := by decide
+
+/-- `items` ↔ dict round trip: the tuples of `items` are the map's pairs in iteration order, one per entry -/
+theorem items_roundtrip (ps : List (V × V)) :
+    pairsOf (itemsV ps) = ps ∧ (itemsV ps).length = ps.length ∧
+    listV (.map ps) = some (ps.map Prod.fst) := by
+  refine ⟨pairsOf_itemsV ps, by simp [itemsV], rfl⟩
+
+/-- … and building a `BTreeMap` from those pairs gives the map back (keys in strictly increasing order) -/
+theorem items_rebuild (ps : List (V × V)) (h : ∀ p ∈ ps, MJ.C07.InRange p.1) (hs : KeysSorted ps) :
+    mkMap .btree (pairsOf (itemsV ps)) = .map ps := by
+  rw [pairsOf_itemsV]
+  exact mkMap_btree_of_sorted ps h hs
+
+example : (∀ p ∈ [((V.str [97]), V.num (.i64 1)), (.str [98], .none)], MJ.C07.InRange p.1) ∧
+    KeysSorted [((V.str [97]), V.num (.i64 1)), (.str [98], .none)] := by
+  refine ⟨by intro p hp; simp only [List.mem_cons, List.not_mem_nil, or_false] at hp; rcases hp with rfl | rfl <;> simp [AllNum], ?_⟩
+  simp only [KeysSorted, List.map_cons, List.map_nil, List.pairwise_cons, List.mem_cons, List.not_mem_nil, or_false,
+    forall_eq, false_imp_iff, implies_true, List.Pairwise.nil, and_true]
+  decide +kernel
+
+/-- `list`: the items of a sequence / tuple / iterable, the keys of a map, the characters of a string,
+    nothing for undefined and none; idempotent -/
+theorem list_spec (xs : List V) (v : V) (ys : List V) (_h : listV v = some ys) :
+    listV (.seq xs) = some xs ∧ listV (.tuple xs) = some xs ∧ listV (.iter xs) = some xs ∧
+    listV .undef = some [] ∧ listV .none = some [] ∧ listV (.seq ys) = some ys := by
+  simp [listV]
+
+example : listV (.str [97, 195, 169]) = some [.str [97], .str [195, 169]] ∧ listV (.num (.i64 1)) = Option.none := by
+  refine ⟨by rfl, by rfl⟩
+
+/-- the pycompat dict methods: `get` is the map lookup (so it finds a key exactly when `in` does),
+    `keys` / `values` / `items` walk the pairs in iteration order and line up -/
+theorem pycompat_dict_spec (m : Mode) (ps : List (V × V)) (k : V) (d : Option V) :
+    (dictGet m ps k d = match getV m ps k with | some v => v | Option.none => d.getD .none) ∧
+    ((getV m ps k).isSome = true ↔ containsV m (.map ps) k = some true) ∧
+    (dictKeys ps).zip (dictValues ps) = ps ∧ pairsOf (dictItems ps) = ps ∧
+    listV (.map ps) = some (dictKeys ps) := by
+  refine ⟨rfl, by simp [containsV], ?_, pairsOf_itemsV ps, rfl⟩
+  simp [dictKeys, dictValues, List.zip_map_left, List.zip_map_right]
+  induction ps with
+  | nil => rfl
+  | cons p ps ih => simp [ih]
+
+/-- `xs.count(x)` counts the items that are `==` to `x`: positive exactly when `x in xs` -/
+theorem count_pos_iff_in (m : Mode) (xs : List V) (x : V) :
+    0 < countV m xs x ↔ containsV m (.seq xs) x = some true := by
+  simp [countV, containsV, List.length_pos_iff_exists_mem]
+
+/-! ## the `sameas` test -/
+
+/-- `sameas` refines `==` on values that are not objects (same kind, both integers or both not, and
+    `==`), and is object identity on objects -/
+theorem sameas_spec (m : Mode) (sameObj : Bool) (a b : V) :
+    (isObj a = false → isObj b = false → sameasV m sameObj a b = true → eqV m a b = true) ∧
+    (isObj a = true → isObj b = true → sameasV m sameObj a b = sameObj) ∧
+    (isObj a ≠ isObj b → sameasV m sameObj a b = false) := by
+  refine ⟨?_, ?_, ?_⟩
+  · intro ha hb h
+    simp only [sameasV, ha, hb, Bool.and_self, Bool.false_eq_true, if_false, Bool.or_self, Bool.and_eq_true] at h
+    exact h.2
+  · intro ha hb; simp [sameasV, ha, hb]
+  · intro h
+    cases ha : isObj a <;> cases hb : isObj b <;> simp [ha, hb] at h <;> simp [sameasV, ha, hb]
+
+/-- `1 is sameas 1.0` is false although `1 == 1.0`; `true is sameas 1` is false although `true == 1` -/
+example : sameasV .btree false (.num (.i64 1)) (.num (.f64 0x3ff0000000000000)) = false ∧
+    eqV .btree (.num (.i64 1)) (.num (.f64 0x3ff0000000000000)) = true ∧
+    sameasV .btree false (.bool true) (.num (.i64 1)) = false ∧
+    sameasV .btree false (.num (.u64 1)) (.num (.i64 1)) = true := by
+  refine ⟨by decide +kernel, by decide +kernel, by decide +kernel, by decide +kernel⟩
+
+/-! ## `reverse` / `last` on every enumerator shape -/
+
+/-- Full-strength statement: `Value::reverse` yields the items backwards whatever the variant of the
+    object's enumerator (anything that can be enumerated). -/
+def reverse_full : Prop :=
+  ∀ (v : EnumVar) (xs : List Nat), v ≠ .nonEnumerable → reverseEnum v xs = some xs.reverse
+
+/-- False on the current code: the `Enumerator::RevIter` arm hands the iterator on without `.rev()`
+    (regenerated arm table), so `BTreeSet`, `LinkedList` and user objects enumerating through
+    `mapped_rev_enumerator` come back in forward order — pinned by the existing test `test_reverse`
+    (a known finding). -/
+theorem reverse_counterexample : ¬ reverse_full := by
+  intro h
+  have := h .revIter [1, 2] (by decide)
+  revert this
+  decide
+
+/-- what the code does, exactly: every arm but `RevIter` reverses (`Empty` has nothing to reverse), `RevIter`
+    is the identity, `NonEnumerable` an error; `last` is the head of that -/
+theorem reverse_partial {α : Type} (v : EnumVar) (xs : List α) :
+    (v ≠ .revIter → v ≠ .nonEnumerable → v ≠ .empty → reverseEnum v xs = some xs.reverse ∧
+      (reverseEnum v xs).bind (reverseEnum .values) = some xs ∧ lastEnum v xs = some xs.getLast?) ∧
+    (reverseEnum .revIter xs = some xs ∧ lastEnum .revIter xs = some xs.head?) ∧
+    reverseEnum .empty ([] : List α) = some [] ∧
+    reverseEnum .nonEnumerable xs = Option.none := by
+  refine ⟨?_, ⟨by rfl, by rfl⟩, by rfl, by rfl⟩
+  intro h1 h2 h3
+  have hv : reverseEnum v xs = some xs.reverse := by
+    cases v <;> first | (exact absurd rfl h1) | (exact absurd rfl h2) | (exact absurd rfl h3) | rfl
+  refine ⟨hv, ?_, ?_⟩
+  · rw [hv]
+    show reverseEnum .values xs.reverse = some xs
+    have : reverseEnum .values xs.reverse = some xs.reverse.reverse := by rfl
+    rw [this, List.reverse_reverse]
+  · simp [lastEnum, hv, List.head?_reverse]
+
+/-- the variants are the ones of the source, arm for arm -/
+theorem reverse_arms_tie : MJ.Gen.reverseArms.map Prod.fst = ["NonEnumerable", "Empty", "Seq", "Iter", "KeyValueIter",
+    "RevIter", "RevKeyValueIter", "Str", "Values"] ∧
+    allEnumVars.all (fun v => (MJ.Gen.reverseArms.lookup v.name).isSome) = true := by
+  refine ⟨by rfl, by decide⟩
+
+/-! ## invalid values, object identity, `custom_cmp` -/
+
+/-- two invalid values (`Value::from(Error)`): ordered by (kind, detail) — a total order that agrees
+    with `==`, and `==` values feed the hasher the same items -/
+theorem invalid_values_order (a b c : Inv) :
+    cmpInv a a = .eq ∧ cmpInv b a = (cmpInv a b).swap ∧
+    (cmpInv a b ≠ .gt → cmpInv b c ≠ .gt → cmpInv a c ≠ .gt) ∧
+    (eqInv a b = true ↔ cmpInv a b = .eq) ∧ (eqInv a b = true → hkeyInv a = hkeyInv b) :=
+  inv_order a b c
+
+example : cmpInv ⟨2, some [98, 111]⟩ ⟨2, some [98, 97]⟩ = .gt ∧ cmpInv ⟨2, Option.none⟩ ⟨2, some []⟩ = .lt ∧
+    eqInv ⟨2, some [98]⟩ ⟨2, some [98]⟩ = true := by decide
+
+/-- the identity short-cut (`is_same_object` → `Equal` / `true`) returns what the structural comparison
+    of a value with itself returns: `Equal` always, `true` for NaN-free values -/
+theorem identity_shortcut_sound (a : V) (ha : NoNaN a) (sa : SortedMaps a) (hc : noClash a a = true) :
+    cmpV a a = .eq ∧ eqV .btree a a = true := by
+  have hr : cmpV a a = .eq := by
+    rw [cmpV_eq_cmpK numSpec_ok a a ha ha]; exact ReflCmp.compare_self
+  exact ⟨hr, (eq_iff_cmp_eq a a ha ha sa sa hc).mpr hr⟩
+
+example : NoNaN (.seq [.num (.f64 0x3ff0000000000000), .map [(.str [97], .tuple [.none])]]) ∧
+    SortedMaps (.seq [.num (.f64 0x3ff0000000000000), .map [(.str [97], .tuple [.none])]]) ∧
+    noClash (.seq [.num (.f64 0x3ff0000000000000), .map [(.str [97], .tuple [.none])]])
+      (.seq [.num (.f64 0x3ff0000000000000), .map [(.str [97], .tuple [.none])]]) = true := by
+  refine ⟨?_, by decide +kernel, by decide +kernel⟩
+  simp [AllNum, AllNumL, AllNumPL, NumOK, N.WF, P64] <;> decide
+
+/-- … which is why NaN is excluded: a list holding a NaN is `==` to itself as the same object, but not
+    to an equal list built separately -/
+example : eqV .btree (.seq [.num (.f64 0x7ff8000000000000)]) (.seq [.num (.f64 0x7ff8000000000000)]) = false := by
+  decide +kernel
+
+/-- plain objects with object identity and a user `custom_cmp`: `==` holds exactly when `cmp` says
+    `Equal` (ids identify objects); among objects of one type that all define `custom_cmp` the order is
+    the order of their custom keys — total, reflexive, antisymmetric, transitive -/
+theorem custom_cmp_spec (a b c : PObj) (hid : IdsCoherent [a, b, c]) :
+    (eqPObj a b = true ↔ cmpPObj a b = .eq) ∧
+    (a.ty = b.ty → b.ty = c.ty → a.ckey.isSome → b.ckey.isSome → c.ckey.isSome →
+      cmpPObj a a = .eq ∧ cmpPObj b a = (cmpPObj a b).swap ∧
+      (cmpPObj a b ≠ .gt → cmpPObj b c ≠ .gt → cmpPObj a c ≠ .gt)) :=
+  pobj_spec a b c hid
+
+example : IdsCoherent [⟨1, 1, some 2, [97]⟩, ⟨2, 1, some 1, [98]⟩, ⟨3, 1, some 1, [99]⟩] := by
+  unfold IdsCoherent; decide
+
+/-- across types the engine falls back to the renderings, which a `custom_cmp` need not respect: three
+    objects on which `cmp` is not transitive (a contract on user code, outside the property) -/
+theorem custom_cmp_mixed_types_counterexample :
+    ∃ a b c : PObj, cmpPObj a b = .lt ∧ cmpPObj b c = .lt ∧ cmpPObj a c = .gt :=
+  ⟨⟨1, 1, some 2, [97]⟩, ⟨2, 2, Option.none, [98]⟩, ⟨3, 1, some 1, [99]⟩, by decide, by decide, by decide⟩
+
+/-- which comparison every collection filter is built on, read off the source: `sort` (all three
+    call sites), `dictsort` pass `case_sensitive` and `reverse` to `cmp_helper`, `groupby` passes
+    `case_sensitive` and never reverses (twice: sorting and cutting), `unique` memorises case-folded string
+    keys in a `BTreeSet`, `min` / `max` are `Iterator::min` / `max` on `Value::cmp`, `cmp_helper` folds only
+    string values and reverses last, every sort ends in the stable `sort_by` -/
+theorem filter_comparisons_tie : MJ.Gen.filterCmpCalls = [
+    ("dictsort", "cmp_helper", "case_sensitive", "reverse"),
+    ("sort", "cmp_helper", "case_sensitive", "reverse"), ("sort", "cmp_helper", "case_sensitive", "reverse"),
+    ("sort", "cmp_helper", "case_sensitive", "reverse"),
+    ("groupby", "cmp_helper", "case_sensitive", "false"), ("groupby", "cmp_helper", "case_sensitive", "false"),
+    ("unique", "BTreeSet", "as_key_str", "to_lowercase"),
+    ("min", "Iterator::min", "", ""), ("max", "Iterator::max", "", ""),
+    ("cmp_helper", "Value::cmp", "as_key_str", "ordering.reverse()"),
+    ("safe_sort", "sort_by", "", "")] := by rfl
 
 end MJ.C07
